@@ -88,7 +88,7 @@ TOut == /\ Ev.e = "Out"
         /\ UNCHANGED cs
         /\ Chk(outs'[Ev.k].xcheck, "HARNESS", "projection_crosscheck", Ev.k)
 
-InBB(o) == o.n = 0 \/ cs.emb = 4 \/      \* the bounding-box clause is stated for coordinates up to 2^52 (embedding 4 is 2^61)
+InBB(o) == o.n = 0 \/ cs.emb \in {4, 7} \/      \* the bounding-box clause is stated for coordinates up to 2^52 (embedding 4 is 2^61)
             (o.bb[1] >= cs.bb[1] /\ o.bb[2] >= cs.bb[2] /\ o.bb[3] <= cs.bb[3] /\ o.bb[4] <= cs.bb[4])
 
 BadPts(o, ct, fr, rs, clear) == {i \in 1..Len(cs.pts) : clear[i] /\ o.cover[i] # Expected(ct, fr, rs, cs.ws[i], cs.wc[i])}
